@@ -7,7 +7,7 @@ SPEC = {
     "driver": "Driver/C07.lean",
     "needs_plz": True,
     "level": "proof",
-    "level_text": "C07_rule (full, unbounded): the rule-hash pre-image is invariant under every permutation of every map-typed field "
+    "level_text": "C07_partial_rule_hash (partial w.r.t. the property: rule hash only; unbounded): the rule-hash pre-image is invariant under every permutation of every map-typed field "
                   "(Provides, Env, EntryPoints, Commands, named sources/outputs/data) and of the dependency insertion order, for the "
                   "schema and the per-accessor sort facts regenerated from ruleHash / hashMap / DeclaredDependencies / DeclaredOutputNames "
                   "/ allBuildInputs / getCommand on this run (C07_facts_ok: every map range is sorted or an order-insensitive maximum); "
@@ -29,7 +29,9 @@ SPEC = {
     ],
     "assumptions": [
         "the order in which BUILD statements add dependencies and fill maps is the only source of order variation inside one target",
-        "source hash and config hash determinism is observed end to end only",
+        "source hash and config hash determinism is observed end to end only (the source hash follows ExportedDependencies() in declaration "
+        "order: fact depOrderAccessors; deterministic because a BUILD file is evaluated sequentially)",
+        "RuleHash memoises the pre-build hash on the first call; the target is not edited between calls except by post-build functions",
     ],
 }
 MUTATIONS = """
